@@ -9,9 +9,130 @@ from dataclasses import dataclass, field
 from typing import Dict, Iterable, List, Optional, Set, Tuple
 
 
+def _binding_counts(fn: ast.AST) -> Dict[str, int]:
+    """How often each local name is bound anywhere inside the function (any binding form)."""
+    cnt: Dict[str, int] = {}
+
+    def add(t):
+        if isinstance(t, ast.Name):
+            cnt[t.id] = cnt.get(t.id, 0) + 1
+        elif isinstance(t, (ast.Tuple, ast.List)):
+            for e in t.elts:
+                add(e)
+        elif isinstance(t, ast.Starred):
+            add(t.value)
+    for n in ast.walk(fn):
+        if isinstance(n, ast.Assign):
+            for t in n.targets:
+                add(t)
+        elif isinstance(n, (ast.AugAssign, ast.AnnAssign)):
+            add(n.target)
+            if isinstance(n, ast.AugAssign):
+                add(n.target)          # counts as a re-binding
+        elif isinstance(n, (ast.For, ast.comprehension)):
+            add(n.target)
+        elif isinstance(n, ast.With):
+            for it in n.items:
+                if it.optional_vars is not None:
+                    add(it.optional_vars)
+        elif isinstance(n, ast.NamedExpr):
+            add(n.target)
+        elif isinstance(n, ast.ExceptHandler) and n.name:
+            cnt[n.name] = cnt.get(n.name, 0) + 1
+        elif isinstance(n, (ast.FunctionDef, ast.ClassDef)) and n is not fn:
+            cnt[n.name] = cnt.get(n.name, 0) + 1
+        elif isinstance(n, (ast.Global, ast.Nonlocal)):
+            for x in n.names:
+                cnt[x] = cnt.get(x, 0) + 2
+        elif isinstance(n, (ast.Import, ast.ImportFrom)):
+            for a in n.names:
+                k = (a.asname or a.name).split(".")[0]
+                cnt[k] = cnt.get(k, 0) + 1
+    if isinstance(fn, ast.FunctionDef):
+        a = fn.args
+        for p in a.posonlyargs + a.args + a.kwonlyargs + ([a.vararg] if a.vararg else []) + ([a.kwarg] if a.kwarg else []):
+            cnt[p.arg] = cnt.get(p.arg, 0) + 1
+    return cnt
+
+
+def _is_alias_chain(e: ast.AST, roots: Set[str]) -> bool:
+    """Name(root) followed by attribute accesses / constant subscripts: self.a.b, self.sig_in[0].state, np.float32."""
+    while True:
+        if isinstance(e, ast.Attribute):
+            e = e.value
+        elif isinstance(e, ast.Subscript) and isinstance(e.slice, ast.Constant) and isinstance(e.slice.value, int):
+            e = e.value
+        else:
+            break
+    return isinstance(e, ast.Name) and e.id in roots
+
+
+class _Inliner(ast.NodeTransformer):
+    def __init__(self, table: Dict[str, ast.AST], after: Dict[str, int]):
+        self.table = table
+        self.after = after
+
+    def visit_Name(self, node: ast.Name):
+        if isinstance(node.ctx, ast.Load) and node.id in self.table and \
+                (node.lineno, node.col_offset) > self.after[node.id]:
+            import copy as _copy
+            new = _copy.deepcopy(self.table[node.id])
+            for x in ast.walk(new):
+                if hasattr(x, "lineno"):
+                    x.lineno, x.col_offset = node.lineno, node.col_offset
+                    x.end_lineno, x.end_col_offset = getattr(node, "end_lineno", node.lineno), getattr(node, "end_col_offset", node.col_offset)
+            return new
+        return node
+
+    def visit_FunctionDef(self, node):
+        return node     # do not descend into nested functions (handled on their own)
+
+    def visit_Lambda(self, node):
+        return node
+
+
+def inline_local_aliases(fn: ast.FunctionDef, module_roots: Set[str]):
+    """Normalisation applied to every function at load time: a local that is bound exactly once, by a top-level
+    statement `name = <alias chain>` (self.a.b, self.sig_in[0].state, np.float32 ...), is replaced by that chain at its
+    later uses.  Rules then see `x[self.select]` whether or not the code spells it `sel = self.select; x[sel]`.
+    (Assumes the aliased attribute is not rebound between the alias definition and its use.)"""
+    cnt = _binding_counts(fn)
+    a = fn.args
+    pos = a.posonlyargs + a.args
+    selfn = pos[0].arg if pos else None
+    roots = set(module_roots) | ({selfn} if selfn and cnt.get(selfn, 0) == 1 else set())
+    table: Dict[str, ast.AST] = {}
+    after: Dict[str, int] = {}
+    for st in fn.body:
+        if isinstance(st, ast.Assign) and len(st.targets) == 1 and isinstance(st.targets[0], ast.Name):
+            name = st.targets[0].id
+            if cnt.get(name, 0) == 1 and _is_alias_chain(st.value, roots) and not isinstance(st.value, ast.Name):
+                table[name] = st.value
+                after[name] = (st.end_lineno or st.lineno, st.end_col_offset or 0)
+    if not table:
+        return
+    inl = _Inliner(table, after)
+    new_body = []
+    for st in fn.body:
+        new_body.append(inl.visit(st))
+    fn.body = new_body
+    ast.fix_missing_locations(fn)
+
+
 class AnalysisError(Exception):
     """The analysis itself cannot proceed (vanished anchor, unparsable file, instance count under the floor).
     Mapped to exit code 2 — never a silent pass and never a VIOLATION."""
+
+
+def _normalise_tree(tree: ast.Module):
+    roots = set()
+    for st in tree.body:
+        if isinstance(st, ast.Import):
+            for a in st.names:
+                roots.add((a.asname or a.name).split(".")[0])
+    for n in ast.walk(tree):
+        if isinstance(n, ast.FunctionDef):
+            inline_local_aliases(n, roots)
 
 
 def repo_root() -> str:
@@ -154,6 +275,7 @@ class Model:
                     tree = ast.parse(src, filename=path)
                 except (SyntaxError, UnicodeDecodeError, OSError) as e:
                     raise AnalysisError(f"cannot parse {rel}: {e}")
+                _normalise_tree(tree)
                 for n in ast.walk(tree):
                     for ch in ast.iter_child_nodes(n):
                         ch._parent = n  # type: ignore[attr-defined]
@@ -167,6 +289,7 @@ class Model:
                 tree = ast.parse(src, filename=rel)
             except SyntaxError as e:
                 raise AnalysisError(f"cannot parse overlay {rel}: {e}")
+            _normalise_tree(tree)
             for n in ast.walk(tree):
                 for ch in ast.iter_child_nodes(n):
                     ch._parent = n  # type: ignore[attr-defined]
